@@ -292,6 +292,7 @@ func damagePart(c *run.Ctx) {
 		return
 	}
 	w.Mu.Lock()
+	w.Broker.HoldPubrel = true // the reception marker stays: the cycle is not ended
 	w.Broker.AckPolicy = func(b *sim.Broker, cn *sim.Conn, p *wire.Packet, reply []byte) string {
 		if reply[0]>>4 == wire.PUBACK || reply[0]>>4 == wire.PUBCOMP {
 			return "hold"
@@ -334,8 +335,8 @@ func damagePart(c *run.Ctx) {
 			}
 		}
 	}
-	if len(kinds) < 3 {
-		c.Inconclusive(fmt.Sprintf("base store has only %d kinds of records", len(kinds)))
+	if len(kinds) < 4 {
+		c.Inconclusive(fmt.Sprintf("base store has only %d kinds of records: %v", len(kinds), kinds))
 		return
 	}
 	tried := 0
@@ -385,6 +386,18 @@ func adoptDamaged(c *run.Ctx, base map[uint][]byte, bs sim.BrokerState, key uint
 	}
 	content[key] = damaged
 	w.Store.Plant(content)
+	// whatever gets saved on the way, by AdoptSession too, has the documented layout
+	var badLayout []string
+	w.Store.OnSave = func(k uint, raw []byte) {
+		if len(raw) < 12 {
+			badLayout = append(badLayout, fmt.Sprintf("Save(%#x) got %d bytes: %x", k, len(raw), raw))
+			return
+		}
+		seq := binary.LittleEndian.Uint64(raw[len(raw)-12:])
+		if want := refEncode(raw[:len(raw)-12], seq); !bytes.Equal(want, raw) {
+			badLayout = append(badLayout, fmt.Sprintf("Save(%#x): trailer %x does not match the documented layout", k, raw[len(raw)-12:]))
+		}
+	}
 	w.Mu.Lock()
 	w.Broker.State = bs.Clone()
 	w.Mu.Unlock()
@@ -409,6 +422,10 @@ func adoptDamaged(c *run.Ctx, base map[uint][]byte, bs sim.BrokerState, key uint
 	}
 	ok := true
 	w.Mu.Lock()
+	for _, b := range badLayout {
+		c.Violate("stored-value-layout", desc+": "+b, nil)
+		ok = false
+	}
 	// what the undamaged records look like
 	good := map[string]bool{}
 	for k, v := range base {
